@@ -536,7 +536,7 @@ def gen_cases(tier, rng):
         for d in [0, 1, 2, 16382, 16383, 16384, 16385, 32766, 32767, 32768, 32769, 49151, 49152, 49153, 65534, 65535]:
             yield Case("c12.seq %d %d" % ((base + d) % 65536, base), cls="seq")
             yield Case("c12.seq %d %d" % (base, (base + d) % 65536), cls="seq")
-    for _ in range(200 if not thorough else 5000):
+    for _ in range(1000 if not thorough else 20000):
         yield Case("c12.seq %d %d" % (rng.randrange(65536), rng.randrange(65536)), cls="seq")
 
     # ---- RtpPacker.Pack: header byte sweep ----
@@ -614,7 +614,7 @@ def gen_cases(tier, rng):
             st = rng.choice(["inorder", "swap", "rotate", "dup"])
             s = mk_schedule(rng, sizes, 8, st)
             yield Case("c12.rt %s %d 90000 10 8 %s %s" % (kind, rng.choice(seqs + [65533, 65529]), frames, sched_tok(s, sum(sizes))), cls="rt-hdr-" + st)
-    nrt = 700 if not thorough else 6000
+    nrt = 8000 if not thorough else 60000
     for it in range(nrt):
         kind = rng.choice(["avc", "avc", "hevc", "hevc", "avcf", "hevcf", "aac", "pcma", "opus"])
         maxp = rng.choice([5, 6, 8, 10, 16, 50])
@@ -657,7 +657,7 @@ def gen_cases(tier, rng):
         s = mk_schedule(rng, sizes, W, st)
         yield Case("c12.rt %s %d %d %d %d %s %s" % (kind, first, rate, maxp, W, ";".join(fr), sched_tok(s, sum(sizes))), cls="rt-" + st)
     # long runs across the 2^16 wrap with a realistic window
-    for it in range(6 if not thorough else 40):
+    for it in range(12 if not thorough else 80):
         kind = rng.choice(["avc", "hevc"])
         fr = []
         sizes = []
@@ -675,7 +675,7 @@ def gen_cases(tier, rng):
             yield Case("c12.pack %s 65500 90000 7 1200 0@%s" % (kind, unit_tok(rng, fb, n)), cls="pack-big")
 
     # ---- foreign packets for the depacketisers ----
-    for c in gen_foreign(rng, 250 if not thorough else 2500):
+    for c in gen_foreign(rng, 4000 if not thorough else 30000):
         yield c
 
 
